@@ -412,7 +412,7 @@ def place_wm(r, desc, roles, wm, how):
     add_style(reg, "WritingMode", v)
 
 
-def make_case(seed, idx, name, form_name, kind, mode, wm, cell, px):
+def make_case(seed, idx, name, form_name, kind, mode, wm, cell, px, with_spec=None):
   """one document of the pairwise tier; -> (description, [times], info)"""
   r = rng(seed, f"case/{idx}/{name}/{form_name}/{kind}/{mode}")
   maker = dict(forms(name))[form_name]
@@ -437,7 +437,7 @@ def make_case(seed, idx, name, form_name, kind, mode, wm, cell, px):
     sb, se = r.choice([(None, None), (1, None), (None, 3), (1, 3), ("1/2", "5/2")])
     steps = target.setdefault("sets", [])
     other = maker(r)
-    if r.random() < 0.5:
+    if (r.random() < 0.5) if with_spec is None else with_spec:
       add_style(target, name, other)                       # the animation must win over the specified value
     if r.random() < 0.4:
       steps.append([name, sb, se, other])                  # the later of two active steps must win
@@ -576,7 +576,7 @@ def _kind(el):
 AFFECTS = {
   "vertical-font-axis": ("FontSize", "LineHeight", "LinePadding", "RubyReserve", "TextOutline", "TextShadow", "Extent", "Padding"),
   "tb-direction": ("Direction",), "direction-from": ("Direction",), "ruby-reserve-length": ("RubyReserve",),
-  "initial-position": ("Origin", "Position"), "disparity": ("Disparity",), "inline-cell-axis": ("LinePadding", "TextShadow"),
+  "initial-position": ("Origin", "Position"), "disparity": ("Disparity",), "td-root-fill": ("TextDecoration",), "inline-cell-axis": ("LinePadding", "TextShadow"),
 }
 
 
@@ -688,8 +688,12 @@ def check_snapshot(rec, doc, t, desc, info, collect=None):
     bad = set()
     for name in sorted(applicable & set(observed)):
       src = srcs[name]
-      rec.evaluated("computed-value/" + name, (kind, src, info["wm"], tuple(info["cell"]), tuple(info["px"])))
       obs = observed[name]
+      contract = "computed-value/" + name
+      sample = None
+      if rec.per_contract.get(contract, 0) < 3:
+        sample = {"element": f"{kind} {eid}", "t": str(t), "source": src, "computed": S.show(obs), "oracle": S.show(exp[name])}
+      rec.evaluated(contract, (kind, src, info["wm"], tuple(info["cell"]), tuple(info["px"])), sample)
       if S.same(obs, exp[name]):
         continue
       if any(S.same(obs, alt[rid].get(eid, {}).get(name)) for _, alt in _alternatives(doc, t, touched, cache, name)
@@ -715,7 +719,7 @@ def check_snapshot(rec, doc, t, desc, info, collect=None):
 # reduction of a failing document (first witness of a key only)
 
 
-def minimize(desc, t, key, budget=250):
+def minimize(desc, t, key, budget=200):
   """greedy reduction: drop initial values, styles, animation steps, timing, region references and whole children (never
   parts of a ruby container, whose content model is fixed) while the same failure key persists"""
   def fails(d):
@@ -776,7 +780,12 @@ def _minimize_job(job):
   logging.disable(logging.CRITICAL)
   desc, t, key = job
   try:
-    return minimize(desc, Fraction(t), key), None
+    small = minimize(desc, Fraction(t), key)
+    got = []
+    check_snapshot(Recorder(PROP, "", {}), build(small), Fraction(t), small,
+                   {"kind": "min", "mode": "min", "wm": "*", "cell": small["cell"], "px": small["px"]}, got)
+    hit = next(g for g in got if g[0] == key)
+    return (small, hit), None
   except Exception as e:  # pylint: disable=broad-except
     return None, repr(e)
 
@@ -812,16 +821,18 @@ def plan(tier, seed):
         if name == "Display" and form_name == "none" and kind in RUBY_INTERNAL + ("Span@Rt", "Rt@Rtc"):
           continue          # removing a part of a ruby container is a matter of ISD construction (C01/C13), not of style values
         for mi, mode in enumerate(("spec", "anim")):
-          wms = WMS if all_wm else [WMS[(fi + ki + mi + pi) % 4]]
+          # animation on the region itself: every writing mode, with and without a specified value underneath
+          wms = WMS if (all_wm or (kind == "Region" and mode == "anim")) else [WMS[(fi + ki + mi + pi) % 4]]
           for wi, wm in enumerate(wms):
-            cell = CELLS[(fi + ki // 4 + mi + wi) % 3]
-            px = PIXELS[(fi + ki + pi + wi) % 4]
-            cases.append(("case", idx, name, form_name, kind, mode, wm, cell, px))
-            idx += 1
+            for ws in ((False, True) if (kind == "Region" and mode == "anim") else (None,)):
+              cell = CELLS[(fi + ki // 4 + mi + wi) % 3]
+              px = PIXELS[(fi + ki + pi + wi) % 4]
+              cases.append(("case", idx, name, form_name, kind, mode, wm, cell, px, ws))
+              idx += 1
       for wi, wm in enumerate(WMS):
         cases.append(("init", idx, name, form_name, wm, CELLS[(fi + wi) % 3], PIXELS[(fi + pi + wi) % 4]))
         idx += 1
-  n_random = 1500 if tier == "quick" else 150000
+  n_random = 1500 if tier == "quick" else 60000
   cases += [("random", i) for i in range(n_random)]
   return cases
 
@@ -834,7 +845,7 @@ def pair_coverage(cases):
   for c in cases:
     if c[0] != "case":
       continue
-    _, _, name, form_name, kind, mode, wm, cell, px = c
+    _, _, name, form_name, kind, mode, wm, cell, px = c[:9]
     pf = (name, form_name)
     pfs.add(pf)
     kinds.add(kind)
@@ -874,12 +885,19 @@ def main():
   for r in parallel(run_chunk, chunks):
     rec.merge(r)
   # first witness of every key: reduce the document
-  fl = list(rec.failures.values())
+  fl = list(rec.failures.values())[:6]        # reduction is for the reader of a report; a broken tree can fail hundreds of keys
   if fl:
     for f, (small, err) in zip(fl, parallel(_minimize_job, [(f["input"]["doc"], f["input"]["t"], f["key"]) for f in fl])):
       if small is not None:
+        small, (_, rid, eid, name, obs, exp) = small
         f["input"]["doc"] = small
         f["replay_args"]["desc"] = small
+        if rid is not None:
+          f["input"].update({"region": rid, "element": eid, "property": name})
+          f["observed"] = S.show(obs) if obs is not None else None
+          f["required"] = S.show(exp) if exp is not None else None
+          f["summary"] = (f"{name} of element {eid!r} in region {rid!r} at t={f['input']['t']}: ttconv computes {f['observed']}, "
+                          f"TTML style resolution gives {f['required']} (first of {f['count']} failing evaluations, reduced)")
       else:
         rec.errors.append(f"minimize {f['key']}: {err}")
   sys.exit(rec.dump(args.out))
